@@ -68,6 +68,12 @@ type evaluator struct {
 }
 
 func (e *evaluator) clean(s string) string {
+	if e.w.R != e.w.R0 {
+		// after the move "root": R0 is where the tree was made (the absolute
+		// targets still name it), R where it is now
+		s = strings.ReplaceAll(s, e.w.R0, "R0")
+	}
+
 	s = strings.ReplaceAll(s, e.w.R, "R")
 
 	return strings.ReplaceAll(s, e.w.base, "BASE")
@@ -388,19 +394,15 @@ func (e *evaluator) mix(s string) {
 // evalConfig evaluates one configuration completely.
 func (e *evaluator) evalConfig(ci int) error {
 	w := e.w
-	links := e.sp.config(ci)
+	cfg := e.sp.config(ci)
+	links := cfg.Links
 	e.cfgIdx = ci
 	e.hash = 0
 
-	linkStr := make([]string, len(links))
-	for i, l := range links {
-		linkStr[i] = l.String()
-	}
-
-	desc := strings.Join(linkStr, " ")
+	desc := cfg.String()
 	e.cur.Store(&desc)
 
-	setupRes, structural, err := w.setup(links, 0)
+	setupRes, structural, err := w.setup(cfg, 0)
 	if err != nil {
 		return err
 	}
@@ -412,7 +414,7 @@ func (e *evaluator) evalConfig(ci int) error {
 		}
 
 		e.report(sig, [4]int{ci, 0, 0, 0}, func() map[string]any {
-			return map[string]any{"links": links, "call": "setup (MkdirAll, Mkdir, WriteFile, Symlink)", "avfs": setupRes.Kind, "avfs_msg": e.clean(setupRes.Msg),
+			return map[string]any{"links": links, "move": w.move, "call": "setup (MkdirAll, Mkdir, WriteFile, Symlink, then the Renames of the move)", "avfs": setupRes.Kind, "avfs_msg": e.clean(setupRes.Msg),
 				"tree_diff": e.clean(fsx.DiffLines(w.pristineK, w.pristineV))}
 		})
 
@@ -446,7 +448,7 @@ func (e *evaluator) evalConfig(ci int) error {
 		qrank := 0
 
 		for _, n := range lens {
-			for _, comps := range e.sp.queries(n) {
+			for _, comps := range e.sp.queries(n, cfg.Move) {
 				qrank++
 
 				if err := e.evalQuery(ci, mode, n*100000+qrank, comps, links); err != nil {
@@ -604,7 +606,16 @@ func (e *evaluator) explain(ci, mode, qrank, callIdx int, cs callSpec, comps []s
 			m := map[string]any{
 				"links": links, "cwd": modeNames[mode], "query": strings.Join(comps, "/"), "call": cs.Name, "operation": e.clean(w.callString(cs, q)),
 				"kernel": e.clean(r.rk.String()), "avfs": e.clean(r.rv.String()),
-				"note": "tree under R: dir d, file d/f (\"DF\"), file f (\"F\") + links; place R = link in R, place d = link in R/d; target R/x = absolute; cwd abs = query is R/<query>, relR = cwd R, reld = cwd R/d",
+				"note": "tree under R: dir d, file d/f (\"DF\"), dir dd, file dd/f (\"DDF\"), file f (\"F\") + links; place R = link made in R, place d = link made in R/d; target R/x = absolute; cwd abs = query is R/<query>, relR = cwd R, reld = cwd R/d (the directory made as R/d under its present name)",
+			}
+			if w.move != "" {
+				var st []string
+				for _, x := range w.moveSteps() {
+					st = append(st, e.clean(fmt.Sprintf("Rename(%s, %s)", x[0], x[1])))
+				}
+
+				m["move"] = w.move
+				m["move_steps"] = "after the links were made and before the call: " + strings.Join(st, "; ")
 			}
 			if r.rk.Msg != "" {
 				m["kernel_msg"] = e.clean(r.rk.Msg)
@@ -723,7 +734,7 @@ func (e *evaluator) evalQuery(ci, mode, qrank int, comps []string, links []Link)
 		if e.sampleN < 6 && e.out.Shard == 0 && (e.out.Evals%977 == 1) {
 			e.sampleN++
 			e.out.Samples = append(e.out.Samples, map[string]any{
-				"links": links, "cwd": modeNames[mode], "query": rel, "call": cs.Name, "kernel": e.clean(r.rk.String()), "avfs": e.clean(r.rv.String()),
+				"links": links, "move": w.move, "cwd": modeNames[mode], "query": rel, "call": cs.Name, "kernel": e.clean(r.rk.String()), "avfs": e.clean(r.rv.String()),
 			})
 		}
 	}
@@ -831,7 +842,7 @@ func runWorker(tier, stageName string, shard, n, rot, onlyConfig int, deadline t
 	defer w.close()
 
 	out := &workerOut{Stage: stageName, Shard: shard, Classes: map[string]int{}, Viols: map[string]*violRec{}}
-	e := &evaluator{w: w, sp: newSpace(st.NLinks), st: st, out: out}
+	e := &evaluator{w: w, sp: st.space(), st: st, out: out}
 
 	// watchdog: a single evaluation that does not finish within 120 s is a hang
 	// (four orders of magnitude above a legitimate evaluation)
